@@ -431,13 +431,14 @@ func vmSliceWriteIn(info *types.Info, lhs, rhs ast.Expr, f *types.Var, defs func
 		}
 		return 0, false
 	}
-	if sl, isSl := rhs.(*ast.SliceExpr); isSl && sl.High != nil && vmFieldOf(info, sl.X) == f && !sl.Slice3 {
+	if sl, isSl := rhs.(*ast.SliceExpr); isSl && sl.High != nil && vmFieldOf(info, sl.X) == f {
 		if sl.Low != nil {
 			if tv := info.Types[sl.Low]; tv.Value == nil || tv.Value.ExactString() != "0" {
 				return 0, false
 			}
 		}
-		// x.F[:len(x.F)-k], the bound possibly held in a local
+		// x.F[:len(x.F)-k] (also the full slice expression x.F[:n:max]: the capacity does not matter),
+		// the bound possibly held in a local
 		if k, isLen := vmLenPlus(info, sl.High, f, defs, 0); isLen && k < 0 {
 			return int(k), true
 		}
